@@ -275,7 +275,9 @@ class CompositeTransform(BaseTransform):
     def forward(self, x):
         x = copy_array(x, xp=self.xp)
         x = self.xp.atleast_2d(x)
-        log_abs_det_jacobian = self.xp.zeros(len(x), device=self.device)
+        log_abs_det_jacobian = self.xp.zeros(
+            len(x), device=self.device, dtype=self.dtype
+        )
         if self.periodic_parameters:
             y, log_j_periodic = self._periodic_transform.forward(
                 x[..., self.periodic_mask]
@@ -298,7 +300,9 @@ class CompositeTransform(BaseTransform):
     def inverse(self, x):
         x = copy_array(x, xp=self.xp)
         x = self.xp.atleast_2d(x)
-        log_abs_det_jacobian = self.xp.zeros(len(x), device=self.device)
+        log_abs_det_jacobian = self.xp.zeros(
+            len(x), device=self.device, dtype=self.dtype
+        )
         if self.affine_transform:
             x, log_j_affine = self._affine_transform.inverse(x)
             log_abs_det_jacobian += log_j_affine
